@@ -101,7 +101,7 @@ def launch(job, k, l, env):
             (post if kill else pre).append(rest)
     out = dict(mode=l["mode"], sig=l.get("sig"), n=l.get("n") or 0, fired=kill is not None,
                ctx=kill["ctx"] if kill else None, at=kill["at"] if kill else None,
-               pre=pre, post=post, rc=rc, nlines=len(lines), obs=observe(job), hung=bool(hung))
+               pre=pre, post=post, rc=rc, nlines=len(lines), obs=observe(job), hung=bool(hung) or rc == 97)
     if l.get("ref"):
         out["lines"] = lines
     if rc not in (0, 1, -9, -15, -2) or os.environ.get("VPK_C10_KEEPERR"):
